@@ -1660,3 +1660,40 @@ func ruleWritersRefuseNothing(c *Check, p *Prog, rule string) {
 		c.Unk(rule, "anchor-count", "", "", fmt.Sprintf("anchor lost: %d of the 4 store writers found", n))
 	}
 }
+
+// ruleBlockSaveAtomic (C04-R14 / C05-R11 / C11-R9; C14-R1 decides the same inside the store's own
+// check): the production and the apply step treat "the block at height h is stored" as one fact —
+// the restart looks for a pending block with GetBlockData and takes "not found" to mean that no
+// batch was taken for that height. That holds only if the block's records reach the disk together:
+// every write of SaveBlockData goes to one datastore batch, committed once, after all of them. A
+// record written beside the batch opens a crash point with half a block on disk: the restart does
+// not find the block, takes the next batch, and the transactions of the first are in no block.
+func ruleBlockSaveAtomic(c *Check, p *Prog, rule string) {
+	c.Doc(rule, "EO: every datastore write of Store.SaveBlockData goes to one batch (none to the datastore directly) and the single Commit follows all of them: a block is on disk whole or not at all, which the restart's pending-block look-up relies on.")
+	save := p.MustFunc("(*" + storePkg + ".DefaultStore).SaveBlockData")
+	g := BuildECFG(p, save, ownPkgOpts(storePkg, 1))
+	c.NoteGraph(g)
+	isW := func(n *Node) bool { return dsCall(n, "Put") || dsCall(n, "Delete") }
+	var inBatch, direct []*Node
+	for _, n := range g.Select(isW) {
+		r := RecvTerm(n)
+		if r != nil && r.Op == "extract" && r.Args[0].Op == "invoke" && strings.HasSuffix(r.Args[0].Name, ".Batch") {
+			inBatch = append(inBatch, n)
+		} else {
+			direct = append(direct, n)
+		}
+	}
+	commits := g.Select(func(n *Node) bool { return dsCall(n, "Commit") })
+	inst := "SaveBlockData ⟂ one batch, committed after every write"
+	switch {
+	case len(inBatch) == 0 || len(commits) == 0:
+		c.Unk(rule, inst, fnName(save), "", fmt.Sprintf("anchor lost: %d batched writes, %d commits in SaveBlockData", len(inBatch), len(commits)))
+	case len(direct) > 0:
+		c.Bad(rule, inst, fnName(save), p.InstrPos(direct[0].In), "a record of the block is written to the datastore directly, beside the batch: a crash between the commit and that write leaves half a block on disk — the restart's look-up of the pending block fails, the next batch is taken and the first batch's transactions are lost", nil)
+	default:
+		c.Decide(rule, inst, fnName(save), p.InstrPos(commits[0].In), "all writes are staged in the batch and the commit follows them",
+			"a write can be staged after the batch was committed: it is never applied, or applied by a second commit — the block is not saved atomically", g,
+			g.PathAvoiding(commits, nodeSet(inBatch), nil))
+	}
+	c.MinInstances(rule, 1)
+}
